@@ -117,6 +117,7 @@ func parent(r *vlib.Run) {
 	r.Require("upstream/udp/refused", 3)
 	r.Require("upstream/tcp/tcp-stall", 3)
 	r.Require("upstream/tcp/tcp-reset", 2)
+	r.Require("pattern/queue-expiry", 6*int64(rounds(r))) // the one-worker / one-slot ready-queue burst (FINDINGS.md #1)
 	r.Require("pattern/control", 40*nScripts)        // the always-answerable control client ran beside every script
 	r.Require("junk_counted_by_server", 4)
 	r.Require("quiescence_reached", nScripts)
